@@ -23,6 +23,8 @@
      revalidate_n E n c          n hand-offs in a row: validate E None None (dump .) iterated n times
      respelled raw raw'          raw' spells the dictionary raw differently: each broadcastable array as in raw or written out
      spell_out raw               raw with every scalar / one-element list written out to full length
+     validate_full E tbl ctx nls dims ix raw   the whole of model_validate: the converters' dimension check (tbl = generated array_ndims,
+                                 dims = array type and dimensions of every array given), validate, then the index arrays ix broadcast
      final_immutable cls         every path through the class's validators ends with the immutable flag set
      store_immutable s           every expression that can reach the array store s yields a read-only array *)
 From Coq Require Import String.
@@ -232,6 +234,57 @@ Theorem C18_scalars_written_out : forall E ctx nls raw, length (v_initial (c_var
   respelled raw (spell_out raw) /\ validate E ctx nls (spell_out raw) = validate E ctx nls raw.
 Proof. intros E ctx nls raw Hn. split; [apply spell_out_respelled | apply validate_spell_out; exact Hn]. Qed.
 
+(* ---- field conversions and index arrays (validate_full = dimension check ; validate ; broadcast of the index arrays) -------- *)
+(* everything above applies to the configuration validate_full returns *)
+Theorem C18_full_is_validate : forall E tbl ctx nls dims ix raw c ix',
+  validate_full E tbl ctx nls dims ix raw = Ok (c, ix') -> dims_ok tbl dims = true /\ validate E ctx nls raw = Ok c.
+Proof. intros E tbl ctx nls dims ix raw c ix' H. apply validate_full_unfold in H as (H1 & H2 & _). auto. Qed.
+
+(* fixes 2477cc1 (F18h): gradient.samplers has one entry per variable, objectives.realization_filters / function_estimators one
+   per objective, nonlinear_constraints.realization_filters / function_estimators one per constraint: the given vector or the
+   repeated scalar ... *)
+Theorem C18_index_arrays_broadcast : forall E tbl ctx nls dims ix raw c ix',
+  validate_full E tbl ctx nls dims ix raw = Ok (c, ix') ->
+  obroadcast_of (length (v_initial (c_vars raw))) (i_samplers ix) (i_samplers ix') /\
+  obroadcast_of (length (c_obj_w raw)) (i_obj_filters ix) (i_obj_filters ix') /\
+  obroadcast_of (length (c_obj_w raw)) (i_obj_estimators ix) (i_obj_estimators ix') /\
+  obroadcast_of (nonlinear_count c) (i_nl_filters ix) (i_nl_filters ix') /\
+  obroadcast_of (nonlinear_count c) (i_nl_estimators ix) (i_nl_estimators ix').
+Proof. exact validate_full_indices. Qed.
+
+(* ... and any other length is rejected *)
+Theorem C18_rejects_bad_index_shapes : forall E tbl ctx nls dims ix raw c, validate E ctx nls raw = Ok c ->
+  (length (v_initial (c_vars c)) <> 0%nat /\ obad_length (length (v_initial (c_vars c))) (i_samplers ix)) \/
+  (length (c_obj_w c) <> 0%nat /\
+   (obad_length (length (c_obj_w c)) (i_obj_filters ix) \/ obad_length (length (c_obj_w c)) (i_obj_estimators ix))) \/
+  (nonlinear_count c <> 0%nat /\
+   (obad_length (nonlinear_count c) (i_nl_filters ix) \/ obad_length (nonlinear_count c) (i_nl_estimators ix))) ->
+  forall r, validate_full E tbl ctx nls dims ix raw <> Ok r.
+Proof. exact rejects_bad_index_shapes. Qed.
+
+(* fix c92fea2 (F18d): an array given with more dimensions than its type has is rejected; every array type of the current
+   source checks its dimension (table regenerated on every run) *)
+Theorem C18_rejects_extra_dimensions : forall E tbl ctx nls dims ix raw t g k, In (t, g) dims ->
+  find (fun e : string * option nat => String.eqb (fst e) t) tbl = Some (t, Some k) -> (k < g)%nat ->
+  forall r, validate_full E tbl ctx nls dims ix raw <> Ok r.
+Proof.
+  intros E tbl ctx nls dims ix raw t g k Hin Hf Hlt. apply (rejects_extra_dimensions E tbl ctx nls dims ix raw (t, g) Hin).
+  rewrite (ndim_ok_spec tbl t g k Hf). apply Nat.leb_gt. exact Hlt.
+Qed.
+
+Theorem C18_array_types_check_dimensions : forall e, In e array_ndims -> snd e <> None.
+Proof.
+  assert (H : forallb (fun e : string * option nat => match snd e with None => false | Some _ => true end) array_ndims = true)
+    by (vm_compute; reflexivity).
+  intros e He. rewrite forallb_forall in H. specialize (H e He). destruct (snd e); [discriminate | discriminate H].
+Qed.
+
+(* idempotence including the index arrays: they come back as they are *)
+Theorem C18_full_idempotent : forall E tbl ctx nls dims dims' ix raw c ix', enums_wf E ->
+  validate_full E tbl ctx nls dims ix raw = Ok (c, ix') -> dims_ok tbl dims' = true ->
+  exists c', validate_full E tbl None None dims' ix' (dump c) = Ok (c', ix') /\ same_but_weights c c' /\ equiv c c' = true /\ canonical E c'.
+Proof. exact validate_full_idempotent. Qed.
+
 (* ---- frozen: the flag discipline (what is proved of frozenness; the objects themselves are probed at run time) ------- *)
 (* every configuration class of the table generated from the current source ends its validators immutable *)
 Theorem C18_flags_final_immutable : forall c, In c config_classes -> final_immutable c = true.
@@ -244,6 +297,34 @@ Proof. apply forallb_forall. vm_compute. reflexivity. Qed.
 (* ... and every array type used for the fields converts its input with immutable_array *)
 Theorem C18_array_types_converted : forall t, In t array_converters -> converter_immutable t = true.
 Proof. apply forallb_forall. vm_compute. reflexivity. Qed.
+
+(* fix 34c3340 (F18e): ImmutableBaseModel guards attribute deletion as it guards assignment;  fix bf727e8 (F18f): immutable_array
+   owns its data (no writable .base);  fix a3ecaf8 (F18g): every after-validator that un-freezes the object starts with
+   `if self._is_validated(): return self`, or its class returns an instance untouched (EnOptConfig's wrap validator).  Facts about
+   the current source, read fail-closed from the AST on every run; the objects themselves are probed at run time. *)
+Theorem C18_deletion_guarded : immutable_base_guards_delete = true.
+Proof. vm_compute. reflexivity. Qed.
+
+Theorem C18_immutable_arrays_own_data : immutable_array_owns_data = true.
+Proof. vm_compute. reflexivity. Qed.
+
+Theorem C18_revalidation_guarded : forall cls v guarded, In (cls, (v, guarded)) mutating_validators ->
+  guarded = true \/ In cls instance_pass_through.
+Proof.
+  assert (H : forallb (fun r : string * (string * bool) => snd (snd r) || existsb (String.eqb (fst r)) instance_pass_through)
+                mutating_validators = true) by (vm_compute; reflexivity).
+  intros cls v guarded Hin. rewrite forallb_forall in H. specialize (H _ Hin). cbn [fst snd] in H.
+  apply orb_true_iff in H as [H|H]; [left; exact H | right].
+  apply existsb_exists in H as (x & Hx & He). apply String.eqb_eq in He. subst x. exact Hx.
+Qed.
+
+(* the guard is only sound when no field defaults to an INSTANCE of such a class (`x: C = C()`): pydantic deep-copies an instance
+   default for every validation, numpy's deepcopy drops the read-only flag, and a guarded validator would hand the copy out as it is
+   (this happened between a3ecaf8 and its follow-up).  Either nothing is guarded, or there is no instance default. *)
+Theorem C18_no_shared_default_instances :
+  negb (existsb (fun r : string * (string * bool) => snd (snd r)) mutating_validators)
+  || match instance_defaults with [] => true | _ => false end = true.
+Proof. vm_compute. reflexivity. Qed.
 
 (* the flag machine, for all validator sequences and start states: a sequence whose last unconditional call is
    _immutable(), followed only by blocks that are empty or end with _immutable(), ends immutable on every path ... *)
@@ -314,6 +395,29 @@ Proof.
   eexists. split; [vm_compute; reflexivity|]. split; vm_compute; reflexivity.
 Qed.
 
+(* index arrays and dimensions: a scalar sampler index is repeated for the three variables, two estimator indices stay, a
+   2-D value for a 1-D field and four sampler indices for three variables are rejected *)
+Example C18_example_full :
+  let raw := {| c_vars := {| v_initial := [1; 2; 3]; v_lower := [Fin 0]; v_upper := [Fin 4]; v_types := None; v_mask := None |};
+                c_obj_w := [1; 3]; c_real_w := [1]; c_rmin := None;
+                c_grad := {| g_P := 2; g_pmin := None; g_mags := [1 # 4]; g_ptypes := [1%Z]; g_btypes := [3%Z] |};
+                c_lin := None; c_nonlin := Some {| n_lower := [Fin 0]; n_upper := [Fin 1; PInf] |} |} in
+  let ix := {| i_samplers := Some [0%Z]; i_obj_filters := None; i_obj_estimators := Some [0%Z; 1%Z];
+               i_nl_filters := Some [(-1)%Z]; i_nl_estimators := None |} in
+  let dims := [("Array1D", 1%nat); ("Array1DInt", 0%nat)] in
+  (exists c ix', validate_full gen_enums array_ndims None None dims ix raw = Ok (c, ix') /\
+     i_samplers ix' = Some [0%Z; 0%Z; 0%Z] /\ i_obj_estimators ix' = Some [0%Z; 1%Z] /\ i_nl_filters ix' = Some [(-1)%Z; (-1)%Z] /\
+     exists c', validate_full gen_enums array_ndims None None [] ix' (dump c) = Ok (c', ix')) /\
+  validate_full gen_enums array_ndims None None [("Array1D", 2%nat)] ix raw = Reject /\
+  validate_full gen_enums array_ndims None None dims
+    {| i_samplers := Some [0%Z; 0%Z; 0%Z; 0%Z]; i_obj_filters := None; i_obj_estimators := None; i_nl_filters := None;
+       i_nl_estimators := None |} raw = Reject.
+Proof.
+  cbv zeta. split; [|split; vm_compute; reflexivity].
+  eexists. eexists. split; [vm_compute; reflexivity|]. repeat (split; [vm_compute; reflexivity|]).
+  eexists. vm_compute. reflexivity.
+Qed.
+
 Print Assumptions C18_weights_canonical.
 Print Assumptions C18_weights_rejected.
 Print Assumptions C18_nonpositive_weights_rejected.
@@ -342,8 +446,18 @@ Print Assumptions C18_stable_under_repeated_revalidation.
 Print Assumptions C18_equivalence_relation.
 Print Assumptions C18_spelling_irrelevant.
 Print Assumptions C18_scalars_written_out.
+Print Assumptions C18_full_is_validate.
+Print Assumptions C18_index_arrays_broadcast.
+Print Assumptions C18_rejects_bad_index_shapes.
+Print Assumptions C18_rejects_extra_dimensions.
+Print Assumptions C18_array_types_check_dimensions.
+Print Assumptions C18_full_idempotent.
 Print Assumptions C18_flags_final_immutable.
 Print Assumptions C18_arrays_stored_immutable.
 Print Assumptions C18_array_types_converted.
+Print Assumptions C18_deletion_guarded.
+Print Assumptions C18_immutable_arrays_own_data.
+Print Assumptions C18_revalidation_guarded.
+Print Assumptions C18_no_shared_default_instances.
 Print Assumptions C18_flag_discipline.
 Print Assumptions C18_last_mutable_not_frozen.
